@@ -273,7 +273,9 @@ def mirror_check(c, prop_file, monitors, what, quick=(40, 30), thorough=(600, 40
         c.obligations.append("translate Gen/Kernel.v")
         c.broken = {"file": "translate", "log": tlog[-800:]}
     elif prove:
-        proved = c.prove(prop_file)
+        proved = True
+        for pf in ([prop_file] if isinstance(prop_file, str) else prop_file):
+            proved = c.prove(pf) and proved
     else:
         proved = True  # the caller re-checks its own Properties file
     binary, blog = c.go_build("mirror")
@@ -346,7 +348,7 @@ def mirror_check(c, prop_file, monitors, what, quick=(40, 30), thorough=(600, 40
                            "steps": [{"op": op, "impl_result": res} for op, res, _ in k["steps"]][:60]})
     if not proved and not concrete:
         b = getattr(c, "broken", {"file": "?", "log": ""})
-        c.fail_obligation("Properties/%s.v (%s)" % (prop_file, b["file"]), b["log"],
+        c.fail_obligation("Properties/%s.v (%s)" % (prop_file if isinstance(prop_file, str) else "+".join(prop_file), b["file"]), b["log"],
                           {"searched_cases": len(usable), "searched_steps": n_steps})
     distinct = len(set((op, res) for k in usable for op, res, _ in k["steps"]))
     if prove:
